@@ -152,6 +152,27 @@ func (e WorkloadGenerator) generateDeltasOndemand(
 		// this is from the external triggers instead of request
 		// send response for all the subscribed intersect with the updated
 		addresses = req.AddressesUpdated.Intersection(subs)
+		// Updates are keyed by resource name, but a client may be subscribed to a resource by one of its
+		// aliases (network/IP) only: it asked before the resource existed, so the name was never learned.
+		if others := req.AddressesUpdated.Difference(subs); len(others) > 0 {
+			infos, _ := e.Server.Env.AmbientIndexes.AddressInformation(others)
+			for _, info := range infos {
+				n := info.ResourceName()
+				if !others.Contains(n) {
+					// looking up a service also returns its workloads
+					continue
+				}
+				for _, alias := range info.Aliases() {
+					if subs.Contains(alias) {
+						if addresses == nil {
+							addresses = sets.New[string]()
+						}
+						addresses.Insert(n)
+						break
+					}
+				}
+			}
+		}
 	}
 
 	// We only need this for on-demand. This allows us to subscribe the client to resources they
